@@ -132,13 +132,29 @@ R5 = {
  "C20j": ("goroutines started in a range loop over closures", "a module declaring go 1.21"),
 }
 
+R6 = {
+ "C05k": ("deepcopy gives a map key a fresh deep copy only when the key type is nullable (was: whenever it cannot be copied by assignment)", "a map keyed by a struct or array that contains a pointer: the copied key shares its pointer target with the source"),
+ "C07k": ("derived.gen.go opened with O_WRONLY|O_CREATE instead of os.Create (no truncation)", "a previous derived.gen.go longer than the new output"),
+ "C09k": ("toerror folds the 'at least one result' and 'last result is bool' checks into one condition", "deriveToError(err, f) where f has no results: goderive panics (index -1)"),
+ "C11k": ("per-file changed flag assigned `name != call.Name` on every call instead of set once", "a call renamed by -autoname / -dedup followed in the same file by a call that keeps its name: the file is not rewritten, exit 0, package does not type-check"),
+ "C16k": ("compose calls a nullary first stage once, when the composition is built", "a first stage without parameters: call log at compose time, a second call of the composed function, or a failure that changes between calls"),
+ "C18k": ("complex128 hash no longer adds + 0 to the imaginary part", "a non-comparable Mem argument holding complex numbers that differ only in the sign of a zero imaginary part: f evaluated twice for one Equal class"),
+ "C19k": ("select form of join drains 'already buffered' items using cap(c) instead of len(c)", "a buffered input closed while holding fewer items than its capacity: zero values appear on the output"),
+ "C20k": ("do signals completion on a package-level channel made once", "two overlapping calls of the same derived Do (two goroutines, or nested): the calls steal each other's signals"),
+}
+
 out = sys.argv[1] if len(sys.argv) > 1 else "/tmp/seedout"
 ROUND = {k: 3 for k in R3}
 ROUND.update({k: 4 for k in R4})
 ROUND.update({k: 5 for k in R5})
 R3.update(R4)
 R3.update(R5)
+ROUND.update({k: 6 for k in R6})
+R3.update(R6)
+only = os.environ.get("ONLY_ROUND")
 for sid, (change, needs) in sorted(R3.items()):
+    if only and str(ROUND[sid]) != only:
+        continue
     prop = sid[:3]
     d = os.path.join(out, "verif_seeded_" + sid)
     chk = os.path.join(d, "check_%s.txt" % prop)
